@@ -6,6 +6,7 @@ sides; schedule shaken through the verif hook points) is checked by the Lean che
 are compared (correspondence of spec and oracle) and the wire clauses are checked across the two
 sides: what one side reports as sent PDUs is what the other reports as received, in order.
 """
+from harness import poolinit as _e2e_exit
 from harness import e2e
 
 TERMS = {
@@ -185,7 +186,7 @@ def run(ctx):
                 check_history(ctx, side, res, results)
     import multiprocessing as mp
 
-    pool = mp.get_context("fork").Pool(processes=2, maxtasksperchild=1)
+    pool = mp.get_context("fork").Pool(processes=2, maxtasksperchild=1, initializer=_e2e_exit.no_join_at_exit)
     try:
         stray = pool.map(stray_pdu_scenario, ["release-rp", "invalid"] * ctx.n(2, 10))
     finally:
@@ -198,11 +199,37 @@ def run(ctx):
         for side in ("req", "acc"):
             if res[side]["hist"]:
                 check_history(ctx, side, res, results)
+    # the association-level lifecycle against Model/Life.lean: directed handler-made aborts, the forced window race,
+    # and trace inclusion of every recorded history
+    from harness.props import c27_life
+
+    c27_life.run_directed(ctx, lambda side, res: check_history(ctx, side, res, results), ctx.n(1, 4))
     judge(ctx, None, results)
+    c27_life.inclusion(ctx, results)
 
 
 def replay(ctx, case):
     c = case["case"]
+    if c[0] == "life-handler-abort":
+        from harness.props import c27_life
+
+        res = c27_life._run_pool(c27_life.handler_abort_scenario, [(c[1], c[2])], procs=1)[0]
+        real = c27_life.projection(res[c[1]]["hist"])
+        out = ctx.lean([["life.run", c[1] == "acc", c27_life.guards()[c[1]], c27_life.SCHEDULES[(c[1], c[2])]]])[0]
+        print("recorded:", real, " model:", [str(x) for x in out[1]])
+        bad = "established" in real and "aborted" in real and real.index("aborted") < real.index("established")
+        return 1 if bad or real != [str(x) for x in out[1]] else 0
+    if c[0] == "life-window-abort":
+        from harness.props import c27_life
+
+        res = c27_life._run_pool(c27_life.window_scenario, [c[1]], procs=1)[0]
+        real = c27_life.projection(res[c[1]]["hist"])
+        print("recorded:", real)
+        return 1 if "established" in real and "aborted" in real and real.index("aborted") < real.index("established") else 0
+    if c[0] == "life-inclusion":
+        rep = ctx.lean([["life.accepts", c[1] == "acc", True, c[3]]])[0]
+        print("lifecycle notifications:", c[3], " accepted by the model:", rep)
+        return 0 if rep == "T" else 1
     rep = ctx.lean([["hist.wf", True, c[3]]])[0]
     print("history:", c[3])
     print("lean verdict:", rep[0], " python verdict:", py_verdict(c[3]))
